@@ -565,12 +565,6 @@ std::string sqf::parser::preprocessor::impl_default::instance::handle_macro(::sq
         log(err::RecursiveMacro(m.diag_info(), std::string(m.name())));
         return std::string(m.name());
     }
-    struct macro_stack_guard
-    {
-        std::vector<std::string>& stack;
-        macro_stack_guard(std::vector<std::string>& stack, std::string name) : stack(stack) { stack.push_back(name); }
-        ~macro_stack_guard() { stack.pop_back(); }
-    } guard(m_macro_stack, std::string(m.name()));
 
     if (!m.is_callable())
     {
@@ -694,6 +688,14 @@ std::string sqf::parser::preprocessor::impl_default::instance::handle_macro(::sq
         "        " <<
         "    " << "\x1B[36mhandle_macro(...)\033[0m starting replace." << std::endl;
 #endif
+    // Only the replacement of the body counts as "inside the expansion": the arguments were
+    // already expanded above, where a nested use of the same macro (N(N(1))) is legitimate.
+    struct macro_stack_guard
+    {
+        std::vector<std::string>& stack;
+        macro_stack_guard(std::vector<std::string>& stack, std::string name) : stack(stack) { stack.push_back(name); }
+        ~macro_stack_guard() { stack.pop_back(); }
+    } guard(m_macro_stack, std::string(m.name()));
     return replace(runtime, original_fileinfo, m, params);
 }
 
